@@ -56,6 +56,15 @@ def plan(tier, seed):
             # every third pool has recycled workers by the time of the call
             'maxtasks': 1 if n % 3 == 0 else None,
             'finished_jobs': 2 if n % 3 else max(2, nproc)}})
+    # terminate() on a pool that recycles after every job, with work queued: the
+    # call lands at different moments of the workers' exits and of the
+    # supervisor's pass that replaces them (it may start a worker after
+    # terminate() has signalled the ones it found)
+    for k, settle in enumerate((0.2, 0.2, 0.9, 1.3, 1.7) if tier == 'quick' else
+                               (0.2, 0.2, 0.5, 0.9, 1.1, 1.3, 1.5, 1.7, 2.1, 0.2)):
+        specs.append({'lane': 'real', 'sc': 'terminate', 'timeout': 90, 'params': {
+            'worker_state': 'idle', 'nproc': 2 + k % 2, 'queued': 6, 'busy': 0, 'threads': True,
+            'T': 1.0, 'maxtasks': 1, 'finished_jobs': 2 + k % 2, 'settle': settle}})
     # the task feeder is busy with one long / lazily produced sequence
     for feeding, st, nproc in (('lazy_imap', 'idle', 2), ('big_map', 'c_sleep', 2)) if tier == 'quick' \
             else (('lazy_imap', 'idle', 2), ('big_map', 'c_sleep', 2), ('lazy_imap', 'python', 3),
@@ -80,6 +89,19 @@ def plan(tier, seed):
         specs.append({'lane': 'real', 'sc': 'race', 'timeout': 90, 'params': {
             'nproc': 3, 'T': 1.0, 'offset': off, 'hook_sleep': 1.2, 'worker_state': 'idle',
             'threads': True}})
+    # ... a pass that outlasts terminate() altogether (the hook sleeps longer than
+    # terminate() is prepared to wait for the supervisor): nothing may be started
+    # once terminate() has returned
+    for off in ((0.1,) if tier == 'quick' else (0.1, 0.6)):
+        specs.append({'lane': 'real', 'sc': 'race', 'timeout': 110, 'params': {
+            'nproc': 2, 'T': 1.0, 'offset': off, 'hook_sleep': 7.0, 'worker_state': 'idle',
+            'threads': True}})
+    # ... and while the supervisor is building the replacement worker (after its
+    # state test, before the worker is started)
+    for off in ((0.1, 0.5) if tier == 'quick' else (0.0, 0.1, 0.3, 0.5, 0.9)):
+        specs.append({'lane': 'real', 'sc': 'race', 'timeout': 90, 'params': {
+            'nproc': 3, 'T': 1.0, 'offset': off, 'hook_sleep': 1.2, 'worker_state': 'idle',
+            'threads': True, 'window': 'create'}})
     if tier != 'quick':
         specs.append({'lane': 'real', 'sc': 'gc', 'timeout': 80, 'params': {'nproc': 4}})
         specs.append({'lane': 'real', 'sc': 'terminate', 'timeout': 90, 'params': {
@@ -215,7 +237,10 @@ def check_race(p, r, obs, ev, attrs, rec):
     if alive:
         rec.violation('worker_alive_after_terminate', attrs, left=obs['workers_after'],
                       ups=obs['ups'], params=p)
-    t_ret = next((e['t'] for e in ev if e['k'] == 'terminate_call'), None)
+    # (a worker the supervisor was already starting when terminate() was called,
+    # and which terminate() then ends with the others, is harmless: what must not
+    # happen is a worker appearing once terminate() has returned)
+    t_ret = next((e['t'] for e in ev if e['k'] == 'terminate_returned'), None)
     late_ups = [e for e in ev if e['k'] == 'process_up' and t_ret and e['t'] > t_ret]
     if late_ups:
         rec.violation('worker_started_after_terminate', attrs, events=late_ups[:3], params=p)
